@@ -227,6 +227,11 @@ def _inversion_check(mask, data, noise, kernel, objects, diag):
                 mapped = np.asarray(inv.mapped_reconstructed_data, dtype=float)
             except aa.exc.InversionException:
                 rec = mapped = None     # the solver's own rejection (singular system / constant solution): outside C04
+        # the normal equations are what the inversion reports at any time, not only before it has been solved
+        dv2, cm2 = np.asarray(inv.data_vector, dtype=float), np.asarray(inv.curvature_matrix, dtype=float)
+        if not (np.array_equal(dv2, dv) and np.array_equal(cm2, cm)):
+            return ("%s: data_vector / curvature_matrix read again after regularization_matrix, reconstruction and mapped data differ from the "
+                    "first read (max %.3g / %.3g): the curvature matrix is then no longer B^T N^-1 B" % (name, maxerr(dv2, dv), maxerr(cm2, cm)))
         out[use_w] = (name, dv, cm, rec, mapped, cond, B)
     (n0, d0, c0, r0, m0, cond, B), (n1, d1, c1, r1, m1, _, _) = out[False], out[True]
     if not close(d1, d0, scale=float(np.abs(d0).max()) + 1e-300):
